@@ -34,6 +34,8 @@ type anchorRec struct {
 }
 
 var canonName = map[*ssa.Function]string{} // renamed function -> recorded name
+// recordedSimpleNames: simple names of the module functions of the reviewed tree
+var recordedSimpleNames = map[string]bool{}
 var canonInfo []string
 
 func rawShortFn(fn *ssa.Function) string {
@@ -149,6 +151,11 @@ func resolveRenames(p *Prog) {
 	recorded := map[string]*anchorRec{}
 	for i := range recs {
 		recorded[recs[i].Name] = &recs[i]
+		nm := recs[i].Name
+		if j := strings.LastIndexAny(nm, ".)"); j >= 0 {
+			nm = nm[j+1:]
+		}
+		recordedSimpleNames[nm] = true
 	}
 	present := map[string]*ssa.Function{}
 	for _, fn := range p.Funcs {
